@@ -1,6 +1,8 @@
 /-
 M-Proto proofs, part 6 (C17): the write loop completes when no planned path is (or needs as
-a directory) another planned path.
+a directory) another planned path, and the file system it starts on is not in the way
+(`NotInTheWay`: no regular file where a directory is needed, no directory where a file is
+planned). The second condition is also necessary.
 -/
 import ThriftVerif.Proto.PlanProofs
 
@@ -17,10 +19,15 @@ def Apart (a b : Str) : Prop := a ≠ b ∧ a ∉ needDirs b ∧ b ∉ needDirs 
 
 instance (a b : Str) : Decidable (Apart a b) := by unfold Apart; infer_instance
 
-/-- the state invariant of the loop with respect to the entries still to be written. -/
-structure LoopInv (fs : FS) (todo : Files) : Prop where
-  files_apart : ∀ q, hasKey fs.files q = true → ∀ x ∈ todo, Apart q x.1
-  dirs_needed : ∀ d ∈ fs.dirs, ∃ q, hasKey fs.files q = true ∧ d ∈ needDirs q
+/-- The initial file system is not in the way of the writes `ws`: no existing regular file is
+one of the directories a planned path needs, and no existing directory is a planned path.
+(An existing regular file AT a planned path is fine: it is replaced.) -/
+def NotInTheWay (fs : FS) (ws : Files) : Prop :=
+  (∀ q, fs.isFile q = true → ∀ w ∈ ws, q ∉ needDirs w.1) ∧
+  (∀ d ∈ fs.dirs, ∀ w ∈ ws, d ≠ w.1)
+
+theorem notInTheWay_empty (ws : Files) : NotInTheWay ⟨[], []⟩ ws :=
+  ⟨fun q hq => by simp [FS.isFile, hasKey] at hq, fun d hd => by simp at hd⟩
 
 theorem filter_ne_key (files : Files) (p : Str) (h : hasKey files p = false) :
     files.filter (fun x => !(x.1 == p)) = files := by
@@ -32,24 +39,54 @@ theorem filter_ne_key (files : Files) (p : Str) (h : hasKey files p = false) :
     rw [e, h] at this; exact absurd this (by simp)
   simp [this]
 
+theorem hasKey_cons (x : Str × Content) (r : Files) (q : Str) :
+    hasKey (x :: r) q = (x.1 == q || hasKey r q) := by
+  simp [hasKey]
+
+/-- the files left after one more write, in terms of the whole plan. -/
+theorem filter_step (files r : Files) (p : Str) (c : Content) (hp : hasKey r p = false) :
+    (files.filter (fun x => !(x.1 == p)) ++ [(p, c)]).filter (fun x => !hasKey r x.1) ++ r =
+      files.filter (fun x => !hasKey ((p, c) :: r) x.1) ++ (p, c) :: r := by
+  rw [List.filter_append, List.filter_filter]
+  have h1 : [(p, c)].filter (fun x => !hasKey r x.1) = [(p, c)] := by simp [hp]
+  rw [h1]
+  have h2 : files.filter (fun x => (!hasKey r x.1) && !(x.1 == p)) =
+      files.filter (fun x => !hasKey ((p, c) :: r) x.1) := by
+    apply List.filter_congr
+    intro x _
+    rw [hasKey_cons]
+    by_cases e : x.1 = p
+    · simp [e]
+    · have e' : ¬ p = x.1 := fun h => e h.symm
+      have b1 : (x.1 == p) = false := by simpa using e
+      have b2 : (p == x.1) = false := by simpa using e'
+      simp [b1, b2]
+  rw [h2]; simp
+
 theorem writeLoop_complete_aux (fs : FS) (ws : Files)
     (hpw : ws.Pairwise (fun a b => Apart a.1 b.1))
     (hself : ∀ a ∈ ws, a.1 ≠ ['/'] ∧ a.1 ∉ needDirs a.1)
-    (hinv : LoopInv fs ws) :
-    ∃ fs', writeLoop fs ws = (fs', true) ∧ fs'.files = fs.files ++ ws := by
+    (hinv : NotInTheWay fs ws) :
+    ∃ fs', writeLoop fs ws = (fs', true) ∧
+      fs'.files = fs.files.filter (fun x => !hasKey ws x.1) ++ ws := by
   induction ws generalizing fs with
-  | nil => exact ⟨fs, rfl, by simp⟩
+  | nil =>
+    refine ⟨fs, rfl, ?_⟩
+    have : fs.files.filter (fun x => !hasKey [] x.1) = fs.files :=
+      List.filter_eq_self.2 (fun _ _ => rfl)
+    rw [this]; simp
   | cons x r ih =>
     obtain ⟨p, c⟩ := x
     obtain ⟨hpx, hpr⟩ := List.pairwise_cons.1 hpw
     obtain ⟨hproot, hpself⟩ := hself (p, c) (by simp)
+    obtain ⟨hfiles, hdirs⟩ := hinv
     -- MkdirAll succeeds: no needed directory is a file
     have hmk : (needDirs p).any fs.isFile = false := by
       cases h : (needDirs p).any fs.isFile with
       | false => rfl
       | true =>
         obtain ⟨d, hd, hf⟩ := List.any_eq_true.1 h
-        exact absurd hd (hinv.files_apart d hf (p, c) (by simp)).2.1
+        exact absurd hd (hfiles d hf (p, c) (by simp))
     -- WriteFile succeeds: the path is not a directory
     have hnotdir : ∀ dirs' : List Str, (∀ d ∈ dirs', d ∈ fs.dirs ∨ d ∈ needDirs p) →
         (p == ['/'] || dirs'.contains p) = false := by
@@ -61,46 +98,51 @@ theorem writeLoop_complete_aux (fs : FS) (ws : Files)
         exfalso
         have hm : p ∈ dirs' := by simpa using h2
         rcases hd p hm with h | h
-        · obtain ⟨q, hq, hpq⟩ := hinv.dirs_needed p h
-          exact (hinv.files_apart q hq (p, c) (by simp)).2.2 hpq
+        · exact hdirs p h (p, c) (by simp) rfl
         · exact hpself h
-    have hnokey : hasKey fs.files p = false := by
-      cases h : hasKey fs.files p with
-      | false => rfl
-      | true => exact absurd rfl (hinv.files_apart p h (p, c) (by simp)).1
     let dirs' := fs.dirs ++ (needDirs p).filter (fun x => !fs.isDir x)
     have hdirs' : ∀ d ∈ dirs', d ∈ fs.dirs ∨ d ∈ needDirs p := by
       intro d hd
       rcases List.mem_append.1 hd with h | h
       · exact Or.inl h
       · exact Or.inr (List.mem_filter.1 h).1
-    let fs2 : FS := ⟨fs.files ++ [(p, c)], dirs'⟩
+    let fs2 : FS := ⟨fs.files.filter (fun x => !(x.1 == p)) ++ [(p, c)], dirs'⟩
     have hstep : writeLoop fs ((p, c) :: r) = writeLoop fs2 r := by
       have e1 : mkdirAll fs (dir p) = some ⟨fs.files, dirs'⟩ := by
         simp only [mkdirAll]
         rw [show ancestors (dir p ++ ['/', 'x']) = needDirs p from rfl, hmk]
         rfl
       have e2 : writeFile ⟨fs.files, dirs'⟩ p c = some fs2 := by
-        simp only [writeFile, FS.isDir, hnotdir dirs' hdirs', Bool.false_eq_true, if_false,
-          filter_ne_key fs.files p hnokey]
+        simp only [writeFile, FS.isDir, hnotdir dirs' hdirs', Bool.false_eq_true, if_false]
         rfl
       simp only [writeLoop, e1, e2]
-    have hinv2 : LoopInv fs2 r := by
+    have hpr' : hasKey r p = false := by
+      cases h : hasKey r p with
+      | false => rfl
+      | true =>
+        obtain ⟨y, hy, hyp⟩ := List.any_eq_true.1 h
+        have : y.1 = p := by simpa using hyp
+        exact absurd this.symm (hpx y hy).1
+    have hinv2 : NotInTheWay fs2 r := by
       constructor
       · intro q hq y hy
-        simp only [fs2, hasKey_append, Bool.or_eq_true] at hq
+        simp only [fs2, FS.isFile, hasKey_append, Bool.or_eq_true] at hq
         rcases hq with hq | hq
-        · exact hinv.files_apart q hq y (by simp [hy])
+        · have hq' : hasKey fs.files q = true := by
+            obtain ⟨z, hz, hzq⟩ := List.any_eq_true.1 hq
+            exact List.any_eq_true.2 ⟨z, (List.mem_filter.1 hz).1, hzq⟩
+          exact hfiles q hq' y (by simp [hy])
         · have : p = q := by simpa [hasKey] using hq
           subst this
-          exact hpx y hy
-      · intro d hd
+          exact (hpx y hy).2.1
+      · intro d hd y hy
         rcases hdirs' d hd with h | h
-        · obtain ⟨q, hq, hdq⟩ := hinv.dirs_needed d h
-          exact ⟨q, by simp only [fs2, hasKey_append, hq, Bool.true_or], hdq⟩
-        · exact ⟨p, by simp [fs2, hasKey_append, hasKey], h⟩
+        · exact hdirs d h y (by simp [hy])
+        · intro e; subst e; exact (hpx y hy).2.2 h
     obtain ⟨fs', h1, h2⟩ := ih fs2 hpr (fun a ha => hself a (by simp [ha])) hinv2
-    exact ⟨fs', by rw [hstep, h1], by rw [h2]; simp [fs2]⟩
+    refine ⟨fs', by rw [hstep, h1], ?_⟩
+    rw [h2]
+    exact filter_step fs.files r p c hpr'
 
 /-- On an empty output tree the write loop writes the whole plan, in every iteration order,
 provided no planned path is "/", equals another planned path, or is one of the directories
@@ -109,8 +151,62 @@ theorem writeLoop_complete (ws : Files)
     (hpw : ws.Pairwise (fun a b => Apart a.1 b.1))
     (hself : ∀ a ∈ ws, a.1 ≠ ['/'] ∧ a.1 ∉ needDirs a.1) :
     ∃ fs', writeLoop ⟨[], []⟩ ws = (fs', true) ∧ fs'.files = ws := by
-  obtain ⟨fs', h1, h2⟩ := writeLoop_complete_aux ⟨[], []⟩ ws hpw hself
-    ⟨fun q hq => by simp [hasKey] at hq, fun d hd => by simp at hd⟩
+  obtain ⟨fs', h1, h2⟩ := writeLoop_complete_aux ⟨[], []⟩ ws hpw hself (notInTheWay_empty ws)
   exact ⟨fs', h1, by simpa using h2⟩
+
+/-- Conversely — for ANY list of writes — the loop cannot succeed on a file system that is in
+the way: an existing regular file stays a regular file and an existing directory stays a
+directory until the loop reaches the entry they block. -/
+theorem writeLoop_ok_notInTheWay (fs : FS) (ws : Files) (h : (writeLoop fs ws).2 = true) :
+    NotInTheWay fs ws := by
+  induction ws generalizing fs with
+  | nil => exact ⟨fun q _ w hw => by simp at hw, fun d _ w hw => by simp at hw⟩
+  | cons x r ih =>
+    obtain ⟨p, c⟩ := x
+    simp only [writeLoop] at h
+    cases e1 : mkdirAll fs (dir p) with
+    | none => simp [e1] at h
+    | some fs1 =>
+      simp only [e1] at h
+      cases e2 : writeFile fs1 p c with
+      | none => simp [e2] at h
+      | some fs2 =>
+        simp only [e2] at h
+        obtain ⟨ihf, ihd⟩ := ih fs2 h
+        -- what the two steps did
+        simp only [mkdirAll] at e1
+        rw [show ancestors (dir p ++ ['/', 'x']) = needDirs p from rfl] at e1
+        cases hmk : (needDirs p).any fs.isFile with
+        | true => simp [hmk] at e1
+        | false =>
+          simp only [hmk, Bool.false_eq_true, if_false, Option.some.injEq] at e1
+          subst e1
+          simp only [writeFile] at e2
+          split at e2
+          · simp at e2
+          · rename_i hnd
+            simp only [Option.some.injEq] at e2
+            subst e2
+            constructor
+            · intro q hq w hw
+              rcases List.mem_cons.1 hw with rfl | hw
+              · intro hm
+                have : (needDirs p).any fs.isFile = true := List.any_eq_true.2 ⟨q, hm, hq⟩
+                rw [hmk] at this; exact absurd this (by simp)
+              · apply ihf q _ w hw
+                simp only [FS.isFile, hasKey_append, Bool.or_eq_true]
+                by_cases e : q = p
+                · right; simp [hasKey, e]
+                · left
+                  obtain ⟨z, hz, hzq⟩ := List.any_eq_true.1 hq
+                  refine List.any_eq_true.2 ⟨z, List.mem_filter.2 ⟨hz, ?_⟩, hzq⟩
+                  have : z.1 = q := by simpa using hzq
+                  simp [this, e]
+            · intro d hd w hw
+              rcases List.mem_cons.1 hw with rfl | hw
+              · intro e; subst e
+                apply hnd
+                simp [FS.isDir, hd]
+              · exact ihd d (List.mem_append_left _ hd) w hw
 
 end ThriftVerif.Proto
